@@ -533,6 +533,51 @@ func (c *advCtx) variants() []variant {
 			add("mac-over-data-only", k, cat(p.DOData, []byte{0x99, 0x02}, swb(osw), sm.EncodeDO(0x8E, onlyData), swb(osw)), true)
 		}
 	}
+	// what-if forgeries: correctly keyed, but structurally not what 9303-11 allows.  A lax
+	// verifier accepts them; an attacker without the key cannot build them, a faulty chip can.
+	{
+		ctr1 := sm.SSCPlus(c.sscEnc, 1)
+		// (a) no DO99 at all, MAC valid over SSC || DO87
+		noSt := mac.MAC8(c.cipher, c.kmac, cat(ctr1, p.DOData))
+		add("valid-mac-no-do99", 0, cat(p.DOData, sm.EncodeDO(0x8E, noSt), sw), true)
+		for k, osw := range c.otherSWs() {
+			add("valid-mac-no-do99-other-sw", k, cat(p.DOData, sm.EncodeDO(0x8E, noSt), swb(osw)), true)
+		}
+		// (b) DO99 of the wrong length, MAC valid
+		for k, st := range [][]byte{{byte(c.sw >> 8)}, {byte(c.sw >> 8), byte(c.sw), 0x00}, {}} {
+			do99 := sm.EncodeDO(0x99, st)
+			m := mac.MAC8(c.cipher, c.kmac, cat(ctr1, p.DOData, do99))
+			add("valid-mac-bad-do99-length", k, cat(p.DOData, do99, sm.EncodeDO(0x8E, m), sw), true)
+		}
+		// (c) a second, correctly encrypted cryptogram with OTHER plaintext next to the genuine one
+		other := bytes.Clone(c.data)
+		if len(other) == 0 {
+			other = []byte{0x6F, 0x00}
+		} else {
+			other[0] ^= 0x01 + c.seedByte(20)&0x7E
+		}
+		alt := sm.New(c.cipher, c.kenc, c.kmac, c.sscEnc).WrapResponseParts(other, c.sw, c.do85).DOData
+		if p.DOData != nil {
+			add("second-valid-cryptogram-first", 0, cat(alt, p.DOData, p.DO99, p.DO8E, sw), false)
+			add("second-valid-cryptogram-after", 0, cat(p.DOData, alt, p.DO99, p.DO8E, sw), false)
+			add("second-valid-cryptogram-last", 0, cat(p.DOData, p.DO99, p.DO8E, alt, sw), false)
+			// the other data-object tag, correctly encrypted
+			alt2 := sm.New(c.cipher, c.kenc, c.kmac, c.sscEnc).WrapResponseParts(other, c.sw, !c.do85).DOData
+			add("second-valid-cryptogram-other-tag-first", 0, cat(alt2, p.DOData, p.DO99, p.DO8E, sw), false)
+			add("second-valid-cryptogram-other-tag-after", 0, cat(p.DOData, alt2, p.DO99, p.DO8E, sw), false)
+		} else {
+			// genuine response has no data: an unauthenticated cryptogram is added
+			add("added-valid-cryptogram-first", 0, cat(alt, p.DO99, p.DO8E, sw), false)
+			add("added-valid-cryptogram-after", 0, cat(p.DO99, alt, p.DO8E, sw), false)
+			add("added-valid-cryptogram-last", 0, cat(p.DO99, p.DO8E, alt, sw), false)
+		}
+		// (d) a second DO99 / DO8E pair that is valid for another status, placed after the genuine pair
+		for k, osw := range c.otherSWs() {
+			q := sm.New(c.cipher, c.kenc, c.kmac, c.sscEnc).WrapResponseParts(c.data, osw, c.do85)
+			add("second-valid-status-pair-after", k, cat(p.DOData, p.DO99, p.DO8E, q.DO99, q.DO8E, swb(osw)), false)
+			add("second-valid-status-pair-first", k, cat(p.DOData, q.DO99, q.DO8E, p.DO99, p.DO8E, sw), false)
+		}
+	}
 	// 9. unprotected responses
 	add("unprotected-sw-only", 0, bytes.Clone(sw), true)
 	add("unprotected-9000", 0, []byte{0x90, 0x00}, true)
